@@ -120,6 +120,18 @@ pub fn run(ctx: &Ctx) {
     ris_encs.par_iter().for_each(|e| {
         drive(ctx, "dec.CompressedRistretto::decompress", json!({"kind": "dec", "bytes": hex(e)}), Some(ris::decode(e).is_some()), || CompressedRistretto(*e).decompress().is_some());
     });
+    // whatever the decoders accept can be handed to the batched encoder in any position (the identity, whose
+    // denominators vanish, first, last and alone)
+    {
+        let decoded: Vec<(RistrettoPoint, [u8; 32])> = ris_encs.iter().filter_map(|e| CompressedRistretto(*e).decompress().map(|p| (p, *e))).collect();
+        let id = CompressedRistretto([0u8; 32]).decompress().expect("identity decodes");
+        decoded.par_iter().enumerate().for_each(|(i, (p, e))| {
+            let q = decoded[(i * 7 + 1) % decoded.len()].0;
+            for (k, batch) in [vec![*p], vec![*p, q], vec![id, *p], vec![*p, id], vec![id, id, *p]].into_iter().enumerate() {
+                drive(ctx, "dec.RistrettoPoint::double_and_compress_batch", json!({"kind": "dec_batch", "bytes": hex(e), "layout": k}), Some(true), || RistrettoPoint::double_and_compress_batch(batch.iter()).len() == batch.len());
+            }
+        });
+    }
     for u in c07::us(quick) {
         for sign in [0u8, 1] {
             drive(ctx, "dec.MontgomeryPoint::to_edwards", json!({"kind": "dec", "bytes": hex(&u), "sign": sign}), Some(crate::model::mont::to_edwards(&Fp::from_bytes(&u), sign == 1).is_some()), || MontgomeryPoint(u).to_edwards(sign).is_some());
